@@ -242,7 +242,8 @@ func TestVerifC08Deliver(t *testing.T) {
 			}
 		}
 		var keep []*vmodel.CountFile
-		if rapid.Bool().Draw(t, "withActive") {
+		withActive := rapid.Bool().Draw(t, "withActive")
+		if withActive {
 			keep = append(keep, mk(vgen.Midnight(start).AddDate(0, 0, 2), "ok"))
 		}
 		if rapid.Bool().Draw(t, "withGarbage") {
@@ -447,10 +448,17 @@ func TestVerifC08Deliver(t *testing.T) {
 
 		// ----- phase 2: sequential re-runs -----
 		nre := rapid.IntRange(0, 4).Draw(t, "nreruns")
+		rerunAt := start
 		for r := 0; r < nre; r++ {
 			ctl2 := newCtl()
 			w.runOf = map[int]int{0: nconc + r}
-			u := vuUploader(dir, cfg, "v1.2.3", "http://upload.test/upload", start.Add(time.Duration(r+1)*time.Minute))
+			// later runs happen minutes, days or weeks later (weeks only when no file is still active: it would expire
+			// and add a week the model does not follow); a report left in place is still delivered
+			rerunAt = rerunAt.Add(time.Minute)
+			if !withActive {
+				rerunAt = rerunAt.Add(rapid.SampledFrom([]time.Duration{0, 0, 0, 48 * time.Hour, 25 * 24 * time.Hour}).Draw(t, "rerunLater"))
+			}
+			u := vuUploader(dir, cfg, "v1.2.3", "http://upload.test/upload", rerunAt)
 			before := len(w.reqs)
 			th := ctl2.Go("rerun", func() { u.Run() })
 			ctl2.Install()
